@@ -362,3 +362,46 @@ Example C06_buffer_state_examples :
   strip_nulls_st [123; 125; 125] [7; 8] = ([7; 8], Err EOther) /\
   build_array_st [enc VNull; [96; 0; 0; 0]] [7; 8] = ([7; 8; 0; 0; 0; 0; 0; 0; 0; 0], Err EOther).
 Proof. exact st_examples. Qed.
+
+(* M6 (second review): the fuel the model passes is never what decides an answer, on ARBITRARY inputs -- also for the loops
+   whose exhaustion is an ordinary value (None, Ok None, Ok buf, PErr, the input itself), about which `<> Err EFuel` says
+   nothing: any fuel above the one the model passes gives the same answer (FuelIndep.v) *)
+From JB Require FuelIndep.
+Theorem C06_fuel_is_never_decisive :
+  (forall k v ks, (length ks < k)%nat -> TreeOps.del_keypath k v ks = TreeOps.del_keypath (S (length ks)) v ks) /\
+  (forall k item ks, (length ks < k)%nat -> EditWalk2.del_item k item ks = EditWalk2.del_item (S (length ks)) item ks) /\
+  (forall k value hdr ks, (length ks <= k)%nat -> EditWalk2.del_arr (EditWalk2.del_item k) value hdr ks = EditWalk2.del_arr (EditWalk2.del_item (length ks)) value hdr ks /\ EditWalk2.del_obj (EditWalk2.del_item k) value hdr ks = EditWalk2.del_obj (EditWalk2.del_item (length ks)) value hdr ks) /\
+  (forall k item, (length item < k)%nat -> EditWalk2.strip_item k item = EditWalk2.strip_item (S (length item)) item) /\
+  (forall k value hdr, (length value <= k)%nat -> EditWalk2.strip_obj (EditWalk2.strip_item k) hdr value = EditWalk2.strip_obj (EditWalk2.strip_item (length value)) hdr value /\ EditWalk2.strip_arr (EditWalk2.strip_item k) hdr value = EditWalk2.strip_arr (EditWalk2.strip_item (length value)) hdr value) /\
+  (forall St R bs (step : St -> Codec.je -> list N -> res (St + R)) fin k idx len joff voff s, (length bs < k)%nat -> Iter.arr_fold bs step fin k idx len joff voff s = Iter.arr_fold bs step fin (S (length bs)) idx len joff voff s) /\
+  (forall St R bs (step : St -> list N -> res (St + R)) fin k idx len joff koff s, (length bs < k)%nat -> Iter.keys_fold bs step fin k idx len joff koff s = Iter.keys_fold bs step fin (S (length bs)) idx len joff koff s) /\
+  (forall k bs i len j, (length bs < k)%nat -> Walk.rd_words k bs i len j = Walk.rd_words (S (length bs)) bs i len j).
+Proof. split; [exact FuelIndep.del_keypath_any_fuel|split; [exact FuelIndep.del_item_any_fuel|split; [exact FuelIndep.del_top_any_fuel|split; [exact FuelIndep.strip_item_any_fuel|split; [exact FuelIndep.strip_top_any_fuel|split; [exact (@FuelIndep.arr_fold_any_fuel)|split; [exact (@FuelIndep.keys_fold_any_fuel)|exact FuelIndep.rd_words_any_fuel]]]]]]]. Qed.
+Print Assumptions C06_fuel_is_never_decisive.
+
+(* L6 (second review): the growing editors' byte theorems carry a hypothesis on the RESULT (`wf_size (concat_t a b)`, ...), which
+   a caller cannot check without computing it.  Sufficient bounds on the INPUTS, which the caller holds: the lengths of the two
+   encodings (plus the key) stay below 2^28 - 16 (SizeBounds.v) *)
+From JB Require SizeBounds EditWalk2 EditWalk2Proofs.
+Theorem C06_result_size_from_input_sizes :
+  (forall a b, wf_size a = true -> wf_size b = true -> lenN (enc a) + lenN (enc b) + 16 < 268435456 -> wf_size (concat_t a b) = true) /\
+  (forall v pos x, wf_size v = true -> wf_size x = true -> lenN (enc v) + lenN (enc x) + 16 < 268435456 ->
+     wf_size (array_insert_t v pos x) = true) /\
+  (forall v k x u r, wf_size v = true -> wf_size x = true -> lenN k < 268435456 ->
+     lenN (enc v) + lenN k + lenN (enc x) + 16 < 268435456 -> object_insert_t v k x u = Ok r -> wf_size r = true).
+Proof.
+  split; [exact SizeBounds.concat_size_from_inputs|]. split; [exact SizeBounds.array_insert_size_from_inputs|exact SizeBounds.object_insert_size_from_inputs].
+Qed.
+Print Assumptions C06_result_size_from_input_sizes.
+Theorem C06_growing_editors_bytes_from_input_sizes :
+  (forall a b buf, wfb a = true -> top_ok a -> wfb b = true -> top_ok b -> lenN (enc a) + lenN (enc b) + 16 < 268435456 ->
+     concat_w (enc a) (enc b) buf = Ok (buf ++ enc (concat_t a b))) /\
+  (forall v pos x buf, wfb v = true -> top_ok v -> wfb x = true -> top_ok x -> lenN (enc v) + lenN (enc x) + 16 < 268435456 ->
+     array_insert_w (enc v) pos (enc x) buf = Ok (buf ++ enc (array_insert_t v pos x))) /\
+  (forall v x key upd buf, wfb v = true -> top_ok v -> wfb x = true -> top_ok x -> lenN key < 268435456 ->
+     lenN (enc v) + lenN key + lenN (enc x) + 16 < 268435456 ->
+     EditWalk2.object_insert_w (enc v) key (enc x) upd buf = res_map (fun y => buf ++ enc y) (object_insert_t v key x upd)).
+Proof.
+  split; [exact SizeBounds.concat_w_enc_from_inputs|]. split; [exact SizeBounds.array_insert_w_enc_from_inputs|exact SizeBounds.object_insert_w_enc_from_inputs].
+Qed.
+Print Assumptions C06_growing_editors_bytes_from_input_sizes.
